@@ -50,7 +50,10 @@ def main():
         gobin = "GOTOOLCHAIN=local go1.26.8" if use126 else "go"
         runname = re.findall(r"^func (Test\w+)", open(demo).read(), re.M)
         tags = "-tags verif " if re.search(r"^//go:build .*verif", open(demo).read(), re.M) else ""
-        tcmd = "%s test %s-vet=off -count=1 -run '^(%s)$' ./%s" % (gobin, tags, "|".join(runname), pkgdir)
+        race = "-race " if prop == "C13" else ""
+        if race:
+            gobin = "CGO_ENABLED=1 " + gobin
+        tcmd = "%s test %s%s-vet=off -count=1 -run '^(%s)$' ./%s" % (gobin, race, tags, "|".join(runname), pkgdir)
         # 1. demonstration passes on the unchanged tree
         rc0, out0 = sh(tcmd, cwd=wt, timeout=900)
         meta["demo_cmd"] = tcmd
